@@ -71,8 +71,10 @@ static int32 parser_model(ssl_t *ssl, uint8_t type, unsigned char **cp, unsigned
         gh.type[i] = type; gh.state_at[i] = ssl->hsState; gh.msg_start[i] = *cp; gh.msg_end[i] = end;
         rc = g_in.rc[i];
         if ((unsigned long) (end - *cp) >= g_in.adv[i]) { *cp += g_in.adv[i]; }
-        /* successor state: any, except HELLO_VERIFY_REQUEST, which no parser of hsDecode.c assigns (only the DTLS arm of parseSSLHandshake does) */
-        if ((rc >= 0 || rc == SSL_PROCESS_DATA) && g_in.next[i] != SSL_HS_HELLO_VERIFY_REQUEST) { ssl->hsState = g_in.next[i]; }
+        /* successor state: any, except HELLO_VERIFY_REQUEST and NEW_SESSION_TICKET, which no parser of hsDecode.c assigns (static fact:
+           grep 'hsState = ' hsDecode.c; the first is set only by the DTLS arm of parseSSLHandshake, the second only by its own admission
+           test, which demands ssl->sid != NULL) */
+        if ((rc >= 0 || rc == SSL_PROCESS_DATA) && g_in.next[i] != SSL_HS_HELLO_VERIFY_REQUEST && g_in.next[i] != SSL_HS_NEW_SESSION_TICKET) { ssl->hsState = g_in.next[i]; }
         else if (rc > -1 || rc < -49) { rc = MATRIXSSL_ERROR; }
     }
     gh.calls++;
@@ -163,6 +165,9 @@ HARNESS_BEGIN
     g_sid.sessionTicket = NULL; g_sid.sessionTicketLen = 0; g_sid.pool = NULL;
     g_sid.sessionTicketState = in.ticketState;
     g_ssl.sid = in.hasSid ? &g_sid : NULL;
+    /* state NEW_SESSION_TICKET is entered only through the admission test of parseSSLHandshake (client, state FINISHED, ssl->sid != NULL,
+       ticket state RECVD_EXT); a reassembly that started there is still in it */
+    if (MODE_HSSTATE == SSL_HS_NEW_SESSION_TICKET) { __CPROVER_assume(in.hasSid && in.ticketState == SESS_TICKET_STATE_RECVD_EXT); }
     __CPROVER_assume(in.len >= 1 && in.len <= BUFN);
     for (i = 0; i < BUFN; i++) { g_buf[i] = in.buf[i]; }
     /* reassembly state: nothing pending, or the invariant established when the first fragment was stored:
